@@ -1,12 +1,17 @@
 package c11
 
 import (
+	"bytes"
 	"math/big"
 	"testing"
 	"time"
 
+	"github.com/idena-network/idena-go/blockchain"
 	"github.com/idena-network/idena-go/blockchain/types"
 	"github.com/idena-network/idena-go/core/state"
+	"github.com/idena-network/idena-go/core/state/snapshot"
+	pkgerrors "github.com/pkg/errors"
+	dbm "github.com/tendermint/tm-db"
 
 	"verifharness/internal/evid"
 	"verifharness/internal/sim"
@@ -58,5 +63,102 @@ func TestRegressionStaleIdentityDiffAfterReorg(t *testing.T) {
 	}
 	if d := n.Chain.GetIdentityDiff(blk.Height()); !d.Empty() {
 		t.Fatalf("after the reorg the node still serves the identity diff of the abandoned block at height %d (%d entries)", blk.Height(), len(d.Values))
+	}
+}
+
+func regressionWorld(t *testing.T) (*sim.World, *sim.Replica, *faultyIpfs) {
+	p := sim.Params{KeySeed: 31, NActors: 3, Profile: "v12", SwitchRng: 50, DelegRng: 50, DiscrRng: 50, SnapRng: 1000,
+		Start: time.Date(2030, 1, 5, 12, 0, 0, 0, time.UTC).Unix(), CeremonyIn: 100000, Interval: 3600, LotteryDur: 30, ShortDur: 30, LongDur: 30}
+	p.States = []state.IdentityState{state.Verified, state.Verified, state.Verified}
+	p.Balances = []*big.Int{sim.Dna(1000), sim.Dna(1000), sim.Dna(1000)}
+	p.Stakes = []*big.Int{sim.Dna(10), sim.Dna(10), sim.Dna(10)}
+	w := sim.NewWorld(p)
+	fi := &faultyIpfs{Proxy: sim.NewIpfs()}
+	n := &sim.Replica{W: w, Name: "node", Key: w.God.Key, Addr: w.God.Addr, DB: dbm.NewMemDB(), Ipfs: fi, Loc: time.UTC}
+	if err := n.Start(); err != nil {
+		t.Fatal(err)
+	}
+	w.Replicas = append(w.Replicas, n)
+	return w, n, fi
+}
+
+// Shrunk failure of TestIdentityDiffReplayInsertionFaults (seeded change C11-m7): a valid block with a non-empty
+// identity diff (KillTx) fails to be inserted because the local ipfs node cannot store its body; the node rolls its
+// state back as full sync does and the round goes to the empty block. The node must not serve the diff of the block
+// that was never inserted for the canonical (empty) block of that height.
+func TestRegressionDiffOfBlockThatFailedToInsert(t *testing.T) {
+	w, n, fi := regressionWorld(t)
+	for i := 0; i < 2; i++ {
+		w.Advance(20 * time.Second)
+		if err := n.AddBlock(n.Propose().Block); err != nil {
+			t.Fatalf("add: %v", err)
+		}
+	}
+	kill, _ := types.SignTx(&types.Transaction{Type: types.KillTx, AccountNonce: 1, MaxFee: sim.Dna(100)}, w.Actors[1].Key)
+	w.Advance(20 * time.Second)
+	if err := n.Pool.AddInternalTx(kill); err != nil {
+		t.Fatalf("pool: %v", err)
+	}
+	x := n.Propose().Block
+	if len(x.Body.Transactions) != 1 || !x.Header.Flags().HasFlag(types.IdentityUpdate) {
+		t.Fatalf("setup: the kill block does not update identities")
+	}
+	evid.Eval()
+	fi.arm(0)
+	err := n.AddBlock(x)
+	if !fi.heal() || pkgerrors.Cause(err) != blockchain.BlockInsertionErr {
+		t.Fatalf("setup: the insertion did not fail with BlockInsertionErr: %v", err)
+	}
+	if err := n.AppState.ResetTo(n.Head().Height()); err != nil {
+		t.Fatal(err)
+	}
+	y := n.EmptyBlock()
+	if err := n.AddBlock(y); err != nil {
+		t.Fatalf("add the empty block of the round: %v", err)
+	}
+	if d := n.Chain.GetIdentityDiff(y.Height()); !d.Empty() {
+		t.Fatalf("the node serves the identity diff of a block it failed to insert (%d entries) for the canonical empty block at height %d", len(d.Values), y.Height())
+	}
+}
+
+// Shrunk failure of TestRefusedInstallations (seeded change C11-m8): the tree of a snapshot is imported completely,
+// the switch refuses the installation (no identity-state version of the snapshot height); nothing of the imported
+// tree may stay in the database of the node.
+func TestRegressionRefusedSwitchLeavesNoState(t *testing.T) {
+	w, src, _ := regressionWorld(t)
+	early := sim.CopyDB(src.DB)
+	for i := 0; i < 3; i++ {
+		w.Advance(20 * time.Second)
+		if err := src.AddBlock(src.Propose().Block); err != nil {
+			t.Fatalf("add: %v", err)
+		}
+	}
+	n := &sim.Replica{W: w, Name: "syncing", Key: w.Actors[1].Key, Addr: w.Actors[1].Addr, DB: early, Ipfs: src.Ipfs, Loc: time.UTC}
+	if err := n.Start(); err != nil {
+		t.Fatal(err)
+	}
+	target := src.Head().Height()
+	if !src.Chain.GetIdentityDiff(target).Empty() {
+		t.Fatalf("setup: block %d changes identities", target)
+	}
+	if _, _, err := consumeRange(src, n, target); err != nil {
+		t.Fatalf("setup: %v", err)
+	}
+	var buf bytes.Buffer
+	root, err := src.AppState.State.WriteSnapshot2(target, &buf)
+	if err != nil {
+		t.Fatal(err)
+	}
+	evid.Eval()
+	before := fullImage(n.DB)
+	if err := n.AppState.State.RecoverSnapshot2(target, n.Chain.PreliminaryHead.Root(), &buf); err != nil {
+		t.Fatalf("setup: tree import refused: %v", err)
+	}
+	err = n.Chain.AtomicSwitchToPreliminary(&snapshot.Manifest{Height: target, Root: root})
+	if err == nil {
+		t.Fatalf("setup: the switch was not refused")
+	}
+	if left := addedOrChanged(before, n.DB); len(left) > 0 {
+		t.Fatalf("the installation was refused at the switch (%v) but left %d records of the imported tree in the database of the node, e.g. %s", err, len(left), left[0])
 	}
 }
